@@ -5,11 +5,12 @@ func (csm *CronStateMachine) findForward() {
 	nodes := []NodeID{years, months, days, hours, minutes, seconds}
 	for _, nodeID := range nodes {
 		node := csm.selectNode(nodeID)
-		if ffresult := node.findForward(); ffresult != unchanged {
+		switch node.findForward() {
+		case advanced:
 			csm.resetFrom(nodeID - 1)
-			if ffresult == overflowed {
-				csm.overflowFrom(nodeID + 1)
-			}
+			return
+		case overflowed:
+			csm.overflowFrom(nodeID + 1)
 			return
 		}
 	}
@@ -18,29 +19,27 @@ func (csm *CronStateMachine) findForward() {
 	csm.next()
 }
 
-// Reset all nodes below and including this one
+// Reset all nodes below and including this one. If the month has no valid
+// day, move on to the next month.
 func (csm *CronStateMachine) resetFrom(node NodeID) {
-	chosenNode := csm.selectNode(node)
-	if chosenNode == nil {
-		return
+	for ; node >= seconds; node-- {
+		if csm.selectNode(node).Reset() {
+			csm.overflowFrom(node + 1)
+			return
+		}
 	}
-
-	chosenNode.Reset()
-	csm.resetFrom(node - 1)
 }
 
 // Advance all nodes above and including this one
 func (csm *CronStateMachine) overflowFrom(node NodeID) {
-	chosenNode := csm.selectNode(node)
-	if chosenNode == nil {
-		return
+	for ; node <= years; node++ {
+		if !csm.selectNode(node).Next() {
+			csm.resetFrom(node - 1) // Reset below
+			return
+		}
 	}
-
-	if chosenNode.Next() { // if overflows, keep recursing
-		csm.overflowFrom(node + 1) // Overflow above
-	} else {
-		csm.resetFrom(node - 1) // Reset below
-	}
+	// no valid year is left
+	csm.expired = true
 }
 
 // Select node from enum
